@@ -19,7 +19,8 @@ ROOT = os.path.dirname(os.path.dirname(os.path.abspath(__file__)))
 VENV = os.path.join(ROOT, ".venv")
 XPY = os.path.join(VENV, "bin", "python")       # overlay interpreter: /venv + crosshair + z3
 NPY = "/venv/bin/python"                         # plain interpreter used for native replay
-BUILD = os.path.join(ROOT, ".build")
+BUILD = os.environ.get("VERIF_BUILD_DIR") or os.path.join(ROOT, ".build")
+REPO_SRC = os.environ.get("VERIF_REPO_SRC") or "/repo/src"      # dev aid: run the checks against a scratch worktree (seed matrix)
 WHEELS = "/opt/veriftools/wheels"
 OVERLAY_PKGS = ["crosshair-tool", "z3-solver", "typeshed-client", "typing-inspect", "importlib_metadata", "zipp"]
 
@@ -52,7 +53,8 @@ def ensure_overlay():
 
 def child_env(seed):
     env = dict(os.environ)
-    env["PYTHONPATH"] = ROOT + os.pathsep + "/repo/src"
+    env["PYTHONPATH"] = ROOT + os.pathsep + REPO_SRC
+    env["VERIF_REPO_SRC"] = REPO_SRC
     env["PYTHONHASHSEED"] = str(seed % 4294967295)
     env["PYTHONDONTWRITEBYTECODE"] = "1"
     env["ADAPTIX_VERIF"] = "1"
